@@ -746,7 +746,9 @@ def run_s2(ctx, n, use_lean=True):
         if lazy_inputs is not None:
             if dict(lazy_inputs) != dict(exp):
                 ctx.fail("input", "C04.S2.lazy-inputs", witness=wit, expected=str({k: str(v) for k, v in exp.items()}),
-                         got=str({k: str(v) for k, v in lazy_inputs.items()}), python=py)
+                         got=str({k: str(v) for k, v in lazy_inputs.items()}),
+                         python=py + f"with reflect:\n    s = Subs(f, tuple({{{', '.join(f'{k!r}: {python_of2(v)}' for k, v in sigma + foreign)}}}.items()))\n"
+                                     f"print(s.inputs)\nFAILS = {{k: str(v) for k, v in s.inputs.items()}} != {({k: str(v) for k, v in exp.items()})!r}\n")
                 continue
         spec_term = ["subs", f_wire, sig_wire]
         for renv in renvs:
@@ -814,7 +816,8 @@ def run_s2(ctx, n, use_lean=True):
                 try:
                     st, cells = value_over(r, ins, renv)
                 except (KeyError, ValueError) as e:
-                    ctx.fail("input", f"C04.S2.chain-{label}-inputs", witness=wit, expected=str(ins), got=str(e), python=py)
+                    ctx.fail("input", f"C04.S2.chain-{label}-inputs", witness=wit, expected=str(ins), got=str(e),
+                             python=py + f"CALL = {label}\n" + py_footer(ins, cells_to_array(model, ins), renv))
                     ok_all = False
                     continue
                 except DECLINE as e:
@@ -827,7 +830,8 @@ def run_s2(ctx, n, use_lean=True):
                 if not ok:
                     ctx.fail("input", f"C04.S2.chain-{label}-value", witness=wit,
                              expected=str(model[bad] if bad is not None and bad >= 0 else model)[:400],
-                             got=str(cells[bad] if bad is not None and bad >= 0 else cells)[:400], python=py)
+                             got=str(cells[bad] if bad is not None and bad >= 0 else cells)[:400],
+                             python=py + f"CALL = {label}\n" + py_footer(ins, cells_to_array(model, ins), renv))
                     ok_all = False
             if ok_all:
                 ctx.count("S2:chain:ok")
@@ -886,6 +890,7 @@ def s2_python(recipe, sigma, foreign, interp, mode):
 
 
 def s2_compare(ctx, wit, py, r, ins, renv, exp, model, kinds, interp):
+    py = py + py_footer(ins, cells_to_array(model, ins), renv)
     # inputs clause for an evaluated result: a subset of the expected inputs with the same domains …
     foreign_in = [k for k, d in r.inputs.items() if k not in exp or exp[k] != d]
     if foreign_in:
@@ -997,8 +1002,9 @@ def s2_chain(ctx, rng, recipe, sigma, interp, f_wire, sig_wire, exp, pool_sizes,
     sig_b = ", ".join(f"{k!r}: {python_of2(v)}" for k, v in b)
     py = (PY_HEADER + f"with {interp}:\n    f = {python_of2(recipe)}\n" +
           f"with {bi}:\n    a = {{{sig_a}}}\n    b = {{{sig_b}}}\n" +
-          "chained = f(**a)(**b)\nfused = dict((k, v(**b)) for k, v in a.items()); [fused.setdefault(k, v) for k, v in b.items()]\n"
-          "fused = f(**fused)\nprint(chained)\nprint(fused)\nFAILS = True  # compare both with `expected`\n")
+          "chained = lambda: f(**a)(**b)\n"
+          "def fused():\n    fs = dict((k, v(**b)) for k, v in a.items()); [fs.setdefault(k, v) for k, v in b.items()]\n"
+          "    return f(**fs)\n")
     term = ["subs", ["subs", f_wire, sig_wire], b_wire]
     renv = renvs[0]
     reqs.append(f"C04 denote {sx(term)} {sx(ser.ins_wire(ins2))} {sx(ser.env_wire(renv))}")
@@ -1296,8 +1302,20 @@ def run_rewritten(ctx):
             wit = {"stream": "S4.rewritten-node", "class": cls, "part_size": size, "parts": nparts,
                    "sigma": {k_: (v if isinstance(v, (int, str)) else str(v)) for k_, v in sigma.items()},
                    "data": [d.tolist() for d in datas]}
-            py = (PY_HEADER + f"# {cls} of {nparts} lazy part(s) (Tensor + Variable('x', Real)) built under lazy, then f(**sigma) under eager; "
-                  "see witness for data and sigma\nFAILS = True\n")
+            def _pyval(v):
+                if isinstance(v, (int, str)):
+                    return repr(v)
+                if isinstance(v, Slice):
+                    return f"Slice({v.name!r}, {v.slice.start}, {v.slice.stop}, {v.slice.step}, {int(v.output.size)})"
+                return (f"Tensor(np.array({np.asarray(v.data).tolist()}, dtype=np.int64), OrderedDict([" +
+                        ", ".join(f"({a!r}, Bint[{int(d.size)}])" for a, d in v.inputs.items()) + f"]), {int(v.output.size)})")
+            pn_ = "i" if cls == "cat" else "t"
+            mk = ([f"Tensor(np.array({d[0].tolist()}), OrderedDict(k=Bint[2])) + x" for d in datas] if cls == "stack" else
+                  [f"Tensor(np.array({d.tolist()}), OrderedDict([({pn_!r}, Bint[{size}]), ('k', Bint[2])])) + x" for d in datas])
+            py = (PY_HEADER + "x = Variable('x', Real)\nwith lazy:\n    parts = (" + ", ".join(mk) + ",)\n    f = " +
+                  ("Stack('i', parts)" if cls == "stack" else f"Cat('i', parts, {pn_!r})") + "\n" +
+                  "CALL = lambda: f(**{" + ", ".join(f"{k_!r}: {_pyval(v)}" for k_, v in sigma.items()) + "})\n" +
+                  py_footer(ins, oracle, {"x": 0.0}))
             try:
                 r = f(**sigma)
             except DECLINE as e:
